@@ -638,6 +638,10 @@ func runC04(cfg *vh.Config) error {
 	caseNo := 0
 	evals := 0
 	for u := 0; u < nObj; u++ {
+		genAST = r.Chance(25)
+		if genAST {
+			res.Count("unit-via-ast")
+		}
 		env := genEnum(r)
 		kind := "object"
 		if r.Chance(15) {
@@ -666,8 +670,7 @@ func runC04(cfg *vh.Config) error {
 			pl = append(pl, p.P)
 		}
 		pl = append(pl, sentinel)
-		src := FileRoot(kind, env, "Foo", objDesc, pl)
-		c := compileUnit(src)
+		c, src := compileRoot(kind, env, objDesc, pl)
 		evals++
 		res.Count(kind)
 		var dterms []string
